@@ -42,7 +42,9 @@ def cmp_dict(params, student, utils):
     return {'grade_decimal': 0, 'msg': 'nope'}
 
 
-VERDICTS = [True, False, 'partial', {'grade_decimal': 0}, {'grade_decimal': 0.25, 'msg': 'quarter'}, {'grade_decimal': 1}]
+VERDICTS = [True, False, 'partial', {'grade_decimal': 0}, {'grade_decimal': 0.25, 'msg': 'quarter'}, {'grade_decimal': 1},
+            {'grade_decimal': 1, 'msg': 'well done'}, {'grade_decimal': 1, 'ok': True, 'msg': 'spot on'},
+            {'grade_decimal': 0.5, 'ok': 'partial', 'msg': 'half way'}]
 
 
 def _const_comparer(v):
@@ -51,7 +53,17 @@ def _const_comparer(v):
     return cmp_const
 
 
-FUNCS = {'cmp_partial': cmp_partial, 'cmp_dict': cmp_dict}
+def cmp_msg(params, student, utils):
+    """author comparer that explains itself also when the comparison SUCCEEDS"""
+    exp = params[0]
+    if utils.within_tolerance(exp, student):
+        return {'grade_decimal': 1, 'ok': True, 'msg': 'spot on'}
+    if utils.within_tolerance(2 * exp, student):
+        return {'grade_decimal': 0.5, 'ok': 'partial', 'msg': 'half way'}
+    return {'grade_decimal': 0, 'ok': False, 'msg': 'not it'}
+
+
+FUNCS = {'cmp_partial': cmp_partial, 'cmp_dict': cmp_dict, 'cmp_msg': cmp_msg}
 for _i, _v in enumerate(VERDICTS):
     FUNCS['cmp_const_%d' % _i] = _const_comparer(_v)
 
@@ -207,19 +219,24 @@ class Gen(object):
 
     def formula_spec(self, with_answers=True):
         r = self.r
-        o = {'variables': ['x', 'y'], 'samples': 3}
+        o = {'variables': ['x', 'y'], 'samples': r.choice([1, 1, 3])}
         if r.random() < 0.4:
             o['failable_evals'] = r.choice([1, 2])
         if r.random() < 0.4:
             o['wrong_msg'] = r.choice(WRONG)
         mode = r.random()
         pool = list(self.FORMULAS)
-        if mode < 0.2:
+        if mode < 0.15:
             wrap = lambda e: {'comparer': {'fn': 'cmp_partial'}, 'comparer_params': [e]}
-        elif mode < 0.35:
+        elif mode < 0.25:
             wrap = lambda e: {'comparer': {'fn': 'cmp_dict'}, 'comparer_params': [e]}
-        elif mode < 0.5:
+        elif mode < 0.4:
+            wrap = lambda e: {'comparer': {'fn': 'cmp_msg'}, 'comparer_params': [e]}
+        elif mode < 0.58:
             kw = {'proportional': r.choice([0.5, 0.25]), 'offset': r.choice([None, 0.25, 0.5])}
+            if r.random() < 0.6:
+                kw['equals_msg'] = 'exactly right'
+            o['samples'] = 3            # LinearComparer needs three samples; it is correlated: ONE comparer result
             wrap = lambda e: {'comparer': {'cmp': ['linear', kw]}, 'comparer_params': [e]}
             pool = ['x+1', '2*x', 'x*y', 'x^2', 'x', '3*x']
         else:
@@ -252,16 +269,28 @@ class Gen(object):
             o['wrong_msg'] = r.choice(WRONG)
         if r.random() < 0.3:
             o['tolerance'] = r.choice([0, '1%', 0.01])
+        wrap = self.author_wrap(0.4)
         if with_answers:
-            o['answers'] = self.alternatives(self.NUMBERS)
-        return {'cls': 'NumericalGrader', 'opts': o}, self.NUMBERS
+            o['answers'] = self._map_expects(self.alternatives(self.NUMBERS), wrap)
+        return {'cls': 'NumericalGrader', 'opts': o}, self.NUMBERS, wrap
+
+    def author_wrap(self, p):
+        """with probability p an author comparer (messages also on success / partial success), else the default one"""
+        r = self.r
+        if r.random() < p:
+            name = r.choice(['cmp_msg', 'cmp_msg', 'cmp_partial', 'cmp_dict'])
+            return lambda e: {'comparer': {'fn': name}, 'comparer_params': [e]}
+        return lambda e: e
 
     MATRICES = ['[1,2]', '[[1,2],[3,4]]', '[x,2*x]', '[1,2,3,4]']
 
     def matrix_spec(self, with_answers=True):
         r = self.r
-        o = {'variables': ['x'], 'samples': 2}
-        if r.random() < 0.5:
+        o = {'variables': ['x'], 'samples': r.choice([1, 2])}
+        wrap = lambda e: e
+        if r.random() < 0.3:
+            wrap = self.author_wrap(1.0)
+        elif r.random() < 0.5:
             o['entry_partial_credit'] = r.choice(['proportional', 0.5, 0.25])
             if r.random() < 0.3:
                 o['entry_partial_msg'] = r.choice(['partly', 'see:\n{error_locations}'])
@@ -276,8 +305,8 @@ class Gen(object):
         if r.random() < 0.4:
             o['wrong_msg'] = r.choice(WRONG)
         if with_answers:
-            o['answers'] = self.alternatives(self.MATRICES)
-        return {'cls': 'MatrixGrader', 'opts': o}, self.MATRICES
+            o['answers'] = self._map_expects(self.alternatives(self.MATRICES), wrap)
+        return {'cls': 'MatrixGrader', 'opts': o}, self.MATRICES, wrap
 
     def table_spec(self, with_answers=True):
         r = self.r
@@ -301,11 +330,9 @@ class Gen(object):
             s, pool = self.table_spec(with_answers)
             return s, pool, (lambda e: e)
         if k == 'n':
-            s, pool = self.numerical_spec(with_answers)
-            return s, pool, (lambda e: e)
+            return self.numerical_spec(with_answers)
         if k == 'm':
-            s, pool = self.matrix_spec(with_answers)
-            return s, pool, (lambda e: e)
+            return self.matrix_spec(with_answers)
         return self.formula_spec(with_answers)
 
     def leaf_inputs(self, pool, answers_hint=()):
